@@ -311,6 +311,47 @@ func runActionCheck(r *core.Run, sp *ActionSpec) {
 		if len(hs) > 0 {
 			r.Sample(map[string]interface{}{"origin": "random", "init": hs[0].init, "steps": sampleSteps(hs[0].acts, hs[0].obs)})
 		}
+		// the binding, demonstrated: one recorded answer of a history is changed; the trace specification must reject it
+		for _, h := range hs {
+			ci := -1
+			for i := len(h.obs) - 1; i >= 0; i-- {
+				if h.obs[i].K == "val" && len(h.obs[i].Vals) > 0 {
+					ci = i
+					break
+				}
+			}
+			if ci < 0 {
+				continue
+			}
+			var b strings.Builder
+			in := Action{}
+			for k, v := range h.init {
+				in[k] = v
+			}
+			in["act"] = "init"
+			b.WriteString(core.JSON(in))
+			b.WriteByte('\n')
+			for i, a := range h.acts {
+				e := Action{}
+				for k, v := range a {
+					e[k] = v
+				}
+				o := h.obs[i]
+				if i == ci {
+					o = Out{K: o.K, E: o.E, Vals: append([]string{o.Vals[0] + "9"}, o.Vals[1:]...)}
+				}
+				e["obs"] = o
+				b.WriteString(core.JSON(e))
+				b.WriteByte('\n')
+			}
+			res := r.RunTLC(core.TLCOpts{Module: sp.Module + "Trace", Cfg: sp.Module + "Trace.cfg", Workers: 1,
+				Texts: map[string]string{"trace.ndjson": b.String()}, Timeout: 20 * time.Minute, KeepOut: true})
+			if res.OK || res.Depth-1 != ci+1 {
+				core.Fail("%sTrace does not reject a history whose answer at step %d was changed (stopped at line %d): the binding is vacuous", sp.Module, ci+1, res.Depth-1)
+			}
+			r.Count("binding_selftest_corrupted_history_rejected", 1)
+			break
+		}
 	}
 	r.Coverage["traces_validated_against_impl"] = validated
 	r.Coverage["exhaustive"] = false
